@@ -11,6 +11,8 @@ R = {
  "C01-f": (6, False, "C01 T5-assert-on-built-dset (an assertion about the contents of the D-set built from the text must be established by from_str; only is_complete is, via T3-fill-complete)", "a syntactically valid text (dim >= 2, size >= 3) whose far-apart operations do not commute, e.g. <1.1:3:2 3,1 2 3,1 3:4 3,3 4>"),
  "C02-f": (6, True, "reported by the proactive T4-storage-layout rule added an hour earlier", "grow(count) with count >= 2"),
  "C12-f": (6, True, "", "deduction chains of depth >= 2 that close a relator cycle away from the scanned row: Coxeter group [4,3,4] at k = 4 (12 tables instead of 10)"),
+ "C05-f": (6, True, "the same edit as C12-f, made independently under C05; reported by the C12 check (derived_table is C12 code)", "mirror-generated base with a 4-fold corner next to a 3-fold one, sheet bound >= 4: covers(<1.1:1:1,1,1:4,3>, 4) has 8 entries instead of 7"),
+ "C06-f": (6, False, "T12 extended: a loop that still feeds the accessor but no longer ends at dim()/size() at all is reported (before, only inclusive -> exclusive at the same end was)", "dimension 2 or 3, size 6: two non-automorphic elements sharing the minimal row-1 pattern (124 instead of 116 sets)"),
  "C10-f": (6, True, "", "a non-cyclically-reduced word u v u^-1 with |u| >= 2 rotated by an offset between 2 and len - 2"),
 }
 for sid, (rnd, first, strength, needs) in R.items():
